@@ -341,6 +341,104 @@ pub fn run_one_vt(seed: u64) -> Outcome {
     o
 }
 
+/// E-T "steady" scenario: one fast subscriber is there from the start and the publisher paces itself on it (never more than
+/// 6 + 4 elements ahead, so a v1 forwarder cannot lag), while another OS thread keeps subscribing and stopping further
+/// actors on the same port. The steady subscriber must receive every element exactly once, in order.
+pub fn run_steady_th(seed: u64, rt: &tokio::runtime::Runtime) -> Outcome {
+    th::begin(seed, 20);
+    let mut p = Prng::new(seed ^ 0x57);
+    let n = p.range(200, 1200);
+    let log: Arc<Mutex<Vec<(u64, u64, u64)>>> = Arc::new(Mutex::new(vec![]));
+    let _rt_ctx = rt.enter(); // creating the port (v2), subscribe() and send() spawn / wake tasks: they need a runtime context
+    let port: Arc<OutputPort<u64>> = Arc::new(OutputPort::default());
+    let mut v: Vec<(String, String)> = vec![];
+    let (steady, steady_h) = rt.block_on(Actor::spawn(None, Sub { log: log.clone(), slow_ms: 0, start_ms: 0 }, ())).expect("steady");
+    port.subscribe(steady.clone(), move |x: u64| conv(0, 0, x));
+    if V2 {
+        std::thread::sleep(Duration::from_millis(5)); // the v2 dispatcher applies the subscription asynchronously
+    }
+    let stop_flag = Arc::new(std::sync::atomic::AtomicBool::new(false));
+    let churn = {
+        let (port, log, stop_flag, handle, mut sp) = (port.clone(), log.clone(), stop_flag.clone(), rt.handle().clone(), p.fork());
+        std::thread::spawn(move || {
+            let _ctx = handle.enter();
+            let mut made = 0u64;
+            let mut live = vec![];
+            while !stop_flag.load(Ordering::SeqCst) {
+                let sub = 100 + made;
+                let (a, h) = handle.block_on(Actor::spawn(None, Sub { log: log.clone(), slow_ms: 0, start_ms: 0 }, ())).expect("sub");
+                let modulus = *sp.pick(&[0u64, 2, 3]);
+                port.subscribe(a.clone(), move |x: u64| conv(sub, modulus, x));
+                made += 1;
+                live.push((a, h));
+                if live.len() > 3 || sp.chance(1, 3) {
+                    let (a, h) = live.remove(0);
+                    a.stop(None);
+                    let _ = handle.block_on(h);
+                }
+                for _ in 0..sp.below(2000) {
+                    std::hint::spin_loop();
+                }
+            }
+            for (a, h) in live {
+                a.stop(None);
+                let _ = handle.block_on(h);
+            }
+            made
+        })
+    };
+    let mut paced = true;
+    let mut i = 0u64;
+    while i < n {
+        let b = p.range(1, 6).min(n - i);
+        for j in 0..b {
+            port.send(i + j);
+        }
+        i += b;
+        // pace on the steady subscriber
+        let t0 = std::time::Instant::now();
+        loop {
+            let got = log.lock().unwrap().iter().filter(|e| e.1 == 0).count() as u64;
+            if got + 4 >= i {
+                break;
+            }
+            if t0.elapsed() > Duration::from_secs(3) {
+                paced = false;
+                break;
+            }
+            std::thread::yield_now();
+        }
+        if !paced {
+            break;
+        }
+    }
+    stop_flag.store(true, Ordering::SeqCst);
+    let churned = churn.join().unwrap_or(0);
+    std::thread::sleep(Duration::from_millis(20));
+    let got: Vec<u64> = log.lock().unwrap().iter().filter(|e| e.1 == 0).map(|e| (e.2 - 1) / 2).collect();
+    if paced {
+        let want: Vec<u64> = (0..n).collect();
+        if got != want {
+            let first_bad = got.iter().zip(want.iter()).position(|(a, b)| a != b).unwrap_or(got.len().min(want.len()));
+            v.push(("missing".to_string(), format!("{} port: the steady subscriber (never more than 10 behind, alive throughout) received {} of {n} elements; first deviation at position {first_bad}: got {:?}, while {churned} other subscriptions were made and dropped concurrently", if V2 { "v2" } else { "v1" }, got.len(), got.get(first_bad))));
+        }
+    } else {
+        // it stopped receiving altogether: elements were lost (pacing waits for them) - unless the machine stalled
+        v.push(("missing".to_string(), format!("{} port: the steady subscriber stopped receiving: {} of {} published elements after a 3 s wait, while {churned} other subscriptions were made and dropped concurrently", if V2 { "v2" } else { "v1" }, got.len(), i)));
+    }
+    steady.stop(None);
+    let _ = rt.block_on(steady_h);
+    th::end();
+    let _ = th::settle_leaks();
+    for l in vt::global_leaks() {
+        v.push(("leak".into(), l));
+    }
+    for (loc, msg) in crate::take_foreign_panics() {
+        v.push(("foreign-panic".into(), format!("{loc}: {msg}")));
+    }
+    Outcome { violations: v, nontrivial: churned > 0, sig: hash_words(&[0x57, n, churned]), desc: vec![format!("steady subscriber, {n} elements paced, {churned} concurrent subscriptions")], published: n, received: got.len() as u64, sample: vec![] }
+}
+
 pub fn run_one_th(seed: u64, rt: &tokio::runtime::Runtime) -> Outcome {
     th::begin(seed, 20);
     let mut o = rt.block_on(body(seed, true));
@@ -364,6 +462,7 @@ pub fn run(args: &Args, rep: &mut Report) {
     for seed in seeds {
         crate::watch_begin(seed);
         let o = match &rt {
+            Some(rt) if seed % 4 == 0 => run_steady_th(seed, rt),
             Some(rt) => run_one_th(seed, rt),
             None => run_one_vt(seed),
         };
